@@ -130,14 +130,18 @@ ezc3d::DataNS::Frame &ezc3d::DataNS::Data::frame_nonConst(size_t idx)
 void ezc3d::DataNS::Data::frame(const ezc3d::DataNS::Frame &frame, size_t idx)
 {
     if (idx == SIZE_MAX){
-        // Copy the content (not the handles) so the stored frame is independent of the one of the caller
-        _frames.push_back(ezc3d::DataNS::Frame());
-        _frames.back().add(frame);
+        // Copy the content (not the handles) so the stored frame is independent of the one of the caller.
+        // The copy is made before the vector grows: the frame sent may be one of the data set itself
+        ezc3d::DataNS::Frame copy;
+        copy.add(frame);
+        _frames.push_back(copy);
     }
     else {
+        ezc3d::DataNS::Frame copy; // made before resizing, the frame sent may be one of the data set itself
+        copy.add(frame);
         if (idx >= _frames.size())
             _frames.resize(idx+1);
-        _frames[idx].add(frame);
+        _frames[idx] = copy;
     }
 }
 
